@@ -5676,7 +5676,10 @@ xpath_pi_text(struct lyxp_set *set, enum lyxp_axis axis, uint32_t options)
             LOGINT_RET(set->ctx);
         case LYXP_NODE_ELEM:
             if (!set->val.nodes[i].node->schema || (set->val.nodes[i].node->schema->nodetype & (LYS_LEAF | LYS_LEAFLIST))) {
+                /* keep the hash table of the set in sync with the changed node type */
+                set_remove_node_hash(set, set->val.nodes[i].node, LYXP_NODE_ELEM);
                 set->val.nodes[i].type = LYXP_NODE_TEXT;
+                set_insert_node_hash(set, set->val.nodes[i].node, LYXP_NODE_TEXT);
                 break;
             }
         /* fall through */
